@@ -121,9 +121,10 @@ LegitJson == {[s |-> Sid(o.sh), t |-> o.t, n |-> o.n, pub |-> o.pub] : o \in Leg
 LogJson  == LET st == ResolveRef(store) IN [i \in DOMAIN st.log |-> st.log[i]]
 
 NApplied  == Len(ResolveRef(store).log)
-EmitCase  == PrintT("CASE " \o ToJson([ops |-> OpsJson, res |-> res, na |-> NApplied]))
-EmitLegit == PrintT("CASE " \o ToJson([ops |-> OpsJson, res |-> res, na |-> NApplied, legit |-> LegitJson]))
-EmitLog   == PrintT("CASE " \o ToJson([ops |-> OpsJson, res |-> res, na |-> NApplied, log |-> LogJson]))
+AoNow     == AnchorOriginOf(ResolveRef(store))
+EmitCase  == PrintT("CASE " \o ToJson([ops |-> OpsJson, res |-> res, ao |-> AoNow, na |-> NApplied]))
+EmitLegit == PrintT("CASE " \o ToJson([ops |-> OpsJson, res |-> res, ao |-> AoNow, na |-> NApplied, legit |-> LegitJson]))
+EmitLog   == PrintT("CASE " \o ToJson([ops |-> OpsJson, res |-> res, ao |-> AoNow, na |-> NApplied, log |-> LogJson]))
 
 ASSUME PrintT("ALPHA " \o ToJson(AlphaSeq))
 =============================================================================
